@@ -5,8 +5,11 @@ package aml
 
 import (
 	"fmt"
+	"io/ioutil"
+	"strings"
 	"testing"
 
+	"github.com/ProjectSerenity/firefly/kernel/device/acpi/table"
 	"github.com/ProjectSerenity/firefly/kernel/zzverif/vlib"
 )
 
@@ -658,15 +661,17 @@ func c13RandName(r *vlib.Rand) [amlNameLen]byte {
 }
 
 type c13Driver struct {
-	c    *vlib.Case
-	run  *vlib.Run
-	r    *vlib.Rand
-	tree *ObjectTree
-	m    *c13Model
-	uniq bool // keep named siblings' names distinct (what ACPI requires of a namespace)
-	log  []string
-	fp   vlib.FP
-	bad  bool
+	c     *vlib.Case
+	run   *vlib.Run
+	r     *vlib.Rand
+	tree  *ObjectTree
+	m     *c13Model
+	uniq  bool     // keep named siblings' names distinct (what ACPI requires of a namespace)
+	log   []string // most recent operations
+	first []string // first 12 operations (samples)
+	nops  int
+	fp    vlib.FP
+	bad   bool
 
 	reuses, midInserts, midDetaches, frees int
 	lookFound, lookNotFound                int
@@ -675,8 +680,12 @@ type c13Driver struct {
 func (d *c13Driver) note(format string, a ...interface{}) {
 	s := fmt.Sprintf(format, a...)
 	d.fp = d.fp.Str(s)
-	if len(d.log) < 400 {
-		d.log = append(d.log, s)
+	d.nops++
+	if len(d.first) < 12 {
+		d.first = append(d.first, s)
+	}
+	if d.log = append(d.log, s); len(d.log) > 256 { // keep the most recent ones
+		d.log = append([]string(nil), d.log[128:]...)
 	}
 }
 
@@ -689,7 +698,7 @@ func (d *c13Driver) tail() []string {
 
 func (d *c13Driver) violation(sig string, what string) {
 	d.bad = true
-	d.c.Violation(sig, map[string]interface{}{"what": what, "last_ops": d.tail(), "ops_so_far": len(d.log)})
+	d.c.Violation(sig, map[string]interface{}{"what": what, "last_ops": d.tail(), "ops_so_far": d.nops})
 }
 
 // verify runs after every editing operation.
@@ -1438,8 +1447,10 @@ func TestVerifC13(t *testing.T) {
 	run.Assume("an object is 'named' iff its creator gave it a name (newNamedObject, or newObject followed by filling in the name as the parser does); an object created by newObject without a name has none, whatever its pool slot held before")
 	run.Note("LIFO order of slot reuse is counted (reuse_most_recently_freed / reuse_other_freed_slot) but not demanded: the statement only requires reuse before growth")
 
+	c13FixedCases(run) // first, so that the smallest reproducer represents a signature
+
 	var agg struct{ cases, reuses, midInserts, midDetaches, found, notFound int }
-	nCases := run.N(4000, 600000)
+	nCases := run.N(3000, 300000)
 	run.Cases(nCases, func(c *vlib.Case) {
 		r := c.R
 		d := c13NewDriver(c, run)
@@ -1452,6 +1463,14 @@ func TestVerifC13(t *testing.T) {
 		rounds := r.Range(2, 5)
 		nExpr := r.Range(30, 90)
 		c.Begin(map[string]interface{}{"steps": steps, "max_live": maxLive, "unique_sibling_names": d.uniq, "lookup_rounds": rounds, "exprs_per_round": nExpr})
+		defer func() { // whatever way the case ends
+			agg.cases++
+			agg.reuses += d.reuses
+			agg.midInserts += d.midInserts
+			agg.midDetaches += d.midDetaches
+			agg.found += d.lookFound
+			agg.notFound += d.lookNotFound
+		}()
 		if !d.root() {
 			return
 		}
@@ -1474,12 +1493,6 @@ func TestVerifC13(t *testing.T) {
 		if d.bad || !d.lookups(nExpr) {
 			return
 		}
-		agg.cases++
-		agg.reuses += d.reuses
-		agg.midInserts += d.midInserts
-		agg.midDetaches += d.midDetaches
-		agg.found += d.lookFound
-		agg.notFound += d.lookNotFound
 		if d.uniq {
 			run.Count("cases_unique_sibling_names", 1)
 		} else {
@@ -1488,11 +1501,26 @@ func TestVerifC13(t *testing.T) {
 		if d.reuses > 0 && d.midInserts > 0 && d.midDetaches > 0 && d.lookFound > 0 && d.lookNotFound > 0 {
 			run.Nontrivial(d.fp)
 		}
-		if run.WantSample() && d.reuses > 0 && len(d.log) > 12 {
-			run.Sample(map[string]interface{}{"first_ops": d.log[:12], "ops": len(d.log), "final_tree": d.dump(), "strict_hits": d.lookFound, "strict_misses": d.lookNotFound})
+		if run.WantSample() && d.reuses > 0 && d.nops > 12 {
+			run.Sample(map[string]interface{}{"first_ops": d.first, "ops": d.nops, "final_tree": d.dump(), "strict_hits": d.lookFound, "strict_misses": d.lookNotFound})
 		}
 	})
 
+	// facets that are the point of the harness (whole runs only)
+	if !run.Single() && !run.Replay && agg.cases > 0 {
+		if agg.reuses == 0 {
+			run.Inconclusive("no freed slot was ever reused")
+		}
+		if agg.midInserts == 0 || agg.midDetaches == 0 {
+			run.Inconclusive("no insertion into / removal from the middle of a child list")
+		}
+		if agg.found == 0 || agg.notFound == 0 {
+			run.Inconclusive("strict lookups did not produce both hits and misses")
+		}
+	}
+}
+
+func c13FixedCases(run *vlib.Run) {
 	// Fixed 1: the tree of the ACPI 6.2 example (p. 252) that the repository's
 	// own test uses, full cross product of scopes and a systematic expression set.
 	run.OneCase(vlib.FixedBase+1, func(c *vlib.Case) {
@@ -1603,16 +1631,35 @@ func TestVerifC13(t *testing.T) {
 		d.lookups(0)
 	})
 
-	// facets that are the point of the harness (whole runs only)
-	if !run.Single() && !run.Replay && agg.cases > 0 {
-		if agg.reuses == 0 {
-			run.Inconclusive("no freed slot was ever reused")
+	// Fixed 4 (observation, not a verdict of this property): the trees the
+	// parser builds from the shipped tables pass c13CheckTreeInvariants. This
+	// is what C11/C12 rely on when they reuse the checker; here it only guards
+	// against the checker demanding more than real parser output satisfies.
+	run.OneCase(vlib.FixedBase+4, func(c *vlib.Case) {
+		c.Begin("shipped DSDT/SSDT and parser-testsuite tables through c13CheckTreeInvariants")
+		for _, files := range [][]string{{"DSDT.aml", "SSDT.aml"}, {"parser-testsuite-DSDT.aml"}} {
+			resolver := mockResolver{pathToDumps: "../table/tabletest/", tableFiles: files}
+			tree := NewObjectTree()
+			tree.CreateDefaultScopes(42)
+			p := NewParser(ioutil.Discard, tree)
+			for i, f := range files {
+				name := strings.Replace(f, ".aml", "", -1)
+				var hdr *table.SDTHeader
+				if pv, _ := vlib.Protect(func() { hdr = resolver.LookupTable(name) }); pv != nil || hdr == nil {
+					run.Count("shipped_tables_not_readable", 1)
+					return
+				}
+				if err := p.ParseAML(uint8(i), name, hdr); err != nil {
+					run.Note("shipped table " + name + " did not parse: " + err.Message)
+					return
+				}
+			}
+			run.Count("shipped_table_trees_checked", 1)
+			run.Count("shipped_table_tree_slots", int64(len(tree.objPool)))
+			if problem := c13CheckTreeInvariants(tree); problem != "" {
+				run.Count("shipped_table_trees_with_checker_problem", 1)
+				run.Note("c13CheckTreeInvariants on the tree parsed from " + strings.Join(files, "+") + ": " + problem)
+			}
 		}
-		if agg.midInserts == 0 || agg.midDetaches == 0 {
-			run.Inconclusive("no insertion into / removal from the middle of a child list")
-		}
-		if agg.found == 0 || agg.notFound == 0 {
-			run.Inconclusive("strict lookups did not produce both hits and misses")
-		}
-	}
+	})
 }
